@@ -14,7 +14,7 @@ import (
 	"github.com/google/inverting-proxy/zz_verif/vx"
 )
 
-var prop = flag.String("prop", "C04", "C01|C04|C07|C08|C09|C20")
+var prop = flag.String("prop", "C04", "C01|C02|C04|C07|C08|C09|C20")
 
 func main() {
 	flag.Parse()
@@ -26,13 +26,15 @@ func scenarios(tier string) []vx.Scenario {
 	switch *prop {
 	case "C04":
 		return c04Scenarios(th)
-	case "C01":
+	case "C01", "C02":
 		// whole agent between the proxy's wire protocol and the backend: concurrent requests
 		// must each be fetched, forwarded and uploaded under their own id with their own response
 		pb := 2
 		out := []vx.Scenario{
 			c04Scenario([]listReply{{ids: []string{"a", "b"}}}, nil, pb, false),
 			c04Scenario([]listReply{{ids: []string{"a"}}, {ids: []string{"b"}}}, nil, pb, false),
+			c04Scenario([]listReply{{ids: []string{"a", "b"}}}, map[string]string{"a": "upload-err"}, pb, false),
+			c04Scenario(slowHist([]listReply{{ids: []string{"a", "b"}}, {ids: []string{"a"}}}), map[string]string{"b": "upload-503x3"}, 0, true),
 		}
 		if th {
 			out = append(out, c04Scenario([]listReply{{ids: []string{"a", "b", "c"}}}, nil, 2, false),
@@ -70,21 +72,39 @@ func histName(h []listReply) string {
 
 func c04Scenario(h []listReply, faults map[string]string, pb int, single bool) vx.Scenario {
 	name := "c04/" + histName(h)
+	if len(h) > 0 && h[0].delay > 0 {
+		name = "c04/slow/" + histName(h)
+	} else {
+		hh, ff := h, faults
+		slowOf[name+faultSuffix(faults)] = func() vx.Scenario { return c04Scenario(slowHist(hh), ff, 0, true) }
+	}
 	for id, f := range faults {
 		name += fmt.Sprintf(" %s:%s", id, f)
+	}
+	upFaults := map[string]string{}
+	for id, f := range faults {
+		if strings.HasPrefix(f, "upload-") {
+			upFaults[id] = strings.TrimPrefix(f, "upload-")
+		}
 	}
 	return vx.Scenario{Name: name, PB: pb, Delay: true, MaxSteps: 60000, Single: single,
 		Setup: func(s *vs.Sched) func(*vs.Result) vx.Exec {
 			w := newWorld(s)
 			w.lists = h
 			for id, f := range faults {
+				if strings.HasPrefix(f, "upload-") {
+					w.uploadFault[id] = upFaults[id]
+					continue
+				}
 				w.fetch[id] = &fetchPlan{kind: f}
 			}
 			// bulk ids are not served: only their effect on the dedup window matters
 			for _, l := range h {
 				if len(l.ids) > 6 {
 					for _, id := range l.ids {
-						w.fetch[id] = &fetchPlan{kind: "404"}
+						if len(id) > 3 {
+							w.fetch[id] = &fetchPlan{kind: "404"}
+						}
 					}
 				}
 			}
@@ -130,13 +150,23 @@ func c04Scenario(h []listReply, faults map[string]string, pb int, single bool) v
 					if n > 1 && !window[id] {
 						x.Violations = append(x.Violations, fmt.Sprintf("TWICE: request %s was forwarded to the backend %d times (listed %d times, dedup window not exceeded)", id, n, listed[id]))
 					}
-					if f := faults[id]; f == "" || f == "503x1" {
+					if f := faults[id]; strings.HasPrefix(f, "upload-") {
+						// the request was served: exactly one forward, whatever happens to the upload
 						if n == 0 && !r.Horizon && len(r.Panics) == 0 && !r.Exited {
 							x.Violations = append(x.Violations, fmt.Sprintf("NEVER: request %s was listed and served without error but never reached the backend", id))
 						}
 						for _, c := range w.calls {
-							if c.tok == id && (c.target != "/p/"+id+"?q=1" || c.method != "GET") {
-								x.Violations = append(x.Violations, fmt.Sprintf("WRONGREQ: backend call for %s had target %q", id, c.target))
+							if c.tok == id && (c.target != "/p/"+id+"?q=1" || c.method != "POST" || c.body != bodyFor(id)) {
+								x.Violations = append(x.Violations, fmt.Sprintf("WRONGREQ: backend call for %s was %s %q with body %q; the client sent POST %q with body %q", id, c.method, c.target, c.body, "/p/"+id+"?q=1", bodyFor(id)))
+							}
+						}
+					} else if f == "" || f == "503x1" {
+						if n == 0 && !r.Horizon && len(r.Panics) == 0 && !r.Exited {
+							x.Violations = append(x.Violations, fmt.Sprintf("NEVER: request %s was listed and served without error but never reached the backend", id))
+						}
+						for _, c := range w.calls {
+							if c.tok == id && (c.target != "/p/"+id+"?q=1" || c.method != "POST" || c.body != bodyFor(id)) {
+								x.Violations = append(x.Violations, fmt.Sprintf("WRONGREQ: backend call for %s was %s %q with body %q; the client sent POST %q with body %q", id, c.method, c.target, c.body, "/p/"+id+"?q=1", bodyFor(id)))
 							}
 						}
 						if n >= 1 {
@@ -160,6 +190,14 @@ func c04Scenario(h []listReply, faults map[string]string, pb int, single bool) v
 		}}
 }
 
+func faultSuffix(faults map[string]string) string {
+	s := ""
+	for id, f := range faults {
+		s += fmt.Sprintf(" %s:%s", id, f)
+	}
+	return s
+}
+
 func sortStrings(a []string) {
 	for i := range a {
 		for j := i + 1; j < len(a); j++ {
@@ -169,6 +207,20 @@ func sortStrings(a []string) {
 		}
 	}
 }
+
+// slowHist returns the history with one virtual second before every reply.
+func slowHist(h []listReply) []listReply {
+	o := make([]listReply, len(h))
+	for i, l := range h {
+		l.delay = time.Second
+		o[i] = l
+	}
+	return o
+}
+
+var slowOf = map[string]func() vx.Scenario{}
+
+func slow(sc vx.Scenario) vx.Scenario { return slowOf[sc.Name]() }
 
 func bulk(n int, tag string) listReply {
 	ids := make([]string, n)
@@ -209,9 +261,32 @@ func c04Scenarios(th bool) []vx.Scenario {
 		}
 	}
 	rec(nil)
+	// the same histories with slow long polls: every worker has finished before the next reply arrives
+	for _, sc := range append([]vx.Scenario{}, out...) {
+		out = append(out, slow(sc))
+	}
 	// fetch outcomes
 	for _, f := range []string{"404", "503x3", "503x1", "err"} {
 		out = append(out, c04Scenario([]listReply{{ids: []string{"a", "b"}}, {ids: []string{"a"}}, {ids: []string{"b", "a"}}}, map[string]string{"a": f}, pb, false))
+		out = append(out, c04Scenario(slowHist([]listReply{{ids: []string{"a", "b"}}, {ids: []string{"a"}}, {ids: []string{"b", "a"}}}), map[string]string{"a": f}, 0, true))
+	}
+	// the response upload fails on every attempt; the proxy, having no response, lists the id again
+	for _, f := range []string{"upload-err", "upload-503x3"} {
+		out = append(out, c04Scenario([]listReply{{ids: []string{"a"}}, {ids: []string{"a"}, afterAttempts: "a"}, {ids: []string{"a", "b"}}}, map[string]string{"a": f}, pb, false))
+		out = append(out, c04Scenario([]listReply{{ids: []string{"a", "b"}}}, map[string]string{"a": f}, pb, false))
+		out = append(out, c04Scenario(slowHist([]listReply{{ids: []string{"a"}}, {ids: []string{"a"}}, {ids: []string{"a", "b"}}, {ids: []string{"a"}}}), map[string]string{"a": f}, 0, true))
+	}
+	// a long-lived request is reported in every reply while more than a thousand others come and go:
+	// never more than 101 ids outstanding, so it must still be forwarded only once
+	{
+		h := []listReply{{ids: []string{"a"}}}
+		for k := 0; k < 11; k++ {
+			l := bulk(100, fmt.Sprintf("r%02d", k))
+			l.ids = append([]string{"a"}, l.ids...)
+			h = append(h, l)
+		}
+		h = append(h, listReply{ids: []string{"a"}})
+		out = append(out, c04Scenario(h, nil, 0, true))
 	}
 	// dedup window (single schedule: a thousand worker threads)
 	out = append(out, c04Scenario([]listReply{{ids: []string{"a"}}, bulk(999, "x"), {ids: []string{"a"}}}, nil, 0, true))
